@@ -1,6 +1,6 @@
 (* Properties/C05.v — error messages carry a faithful target-spec trace down to the failing spec. *)
 From Coq Require Import Bool Lia List Arith String Ascii.
-From Glom Require Import Model.Trace Spec.TraceSpec Proofs.TraceProofs.
+From Glom Require Import Model.Trace Spec.TraceSpec Proofs.TraceProofs Proofs.TraceGeneral.
 Import ListNotations.
 Local Open Scope list_scope.
 
@@ -32,6 +32,24 @@ Theorem trace_value_shape : forall s suffix maxlen,
   (maxlen < String.length s -> exists keep, format_trace_value s suffix maxlen = String.append (take keep s) suffix).
 Proof. exact trace_value_shape_lemma. Qed.
 Print Assumptions trace_value_shape.
+
+(* UNBOUNDED, for the chain-free fragment: for EVERY spec built from leaves, dict specs, Coalesce (with skipped values), Or and
+   Check-style guards — any nesting depth, any number of children, every success / failure pattern — whose occurrences are numbered
+   apart below 1000 (so that different errors are different numbers, as they are different objects in glom), the outcome and the
+   trace the breadcrumb machine renders (frames, LAST_CHILD_SCOPE / CHILD_ERRORS / CUR_ERROR, _unpack_stack's descent, branch
+   detection, push-down and trim) ARE the structural reading of Spec/TraceSpec.v: ancestors in order with the targets received,
+   every attempted branch with its own failure trace, a single failed attempt that was also the last one as a straight line,
+   abandoned and skipped alternatives absent, each error shown where it was raised.  Proved in two stages (Proofs/TraceGeneral.v):
+   the raw descent at a frame is a function of the spec alone (induction on the evaluation, with a frame-locality invariant), and the
+   presentation steps applied to it give the reading.  Tuple chains and Switch (chain_child, the NO_PYFRAME walk) are not covered
+   by this theorem; for them the bounded companion below and the correspondence stand. *)
+Theorem trace_is_structural_reading_chainfree : forall s,
+  chainfree s = true -> wf s ->
+  fst (run s) = fst (expected s) /\ (forall e, fst (run s) = Exc e -> snd (run s) = snd (expected s)).
+Proof. exact chainfree_reading_lemma. Qed.
+Print Assumptions trace_is_structural_reading_chainfree.
+Example ex_chainfree_hypotheses : chainfree deep_example = true /\ wf deep_example.
+Proof. exact deep_example_ok. Qed.
 
 (* BOUNDED companion (a finite sweep, the bound is in the statement): for EVERY spec shape of nesting depth <= 2 with at most
    two children per node over leaf / dict / chain / Coalesce / Or / Switch / Check-style guard (109074 shapes, every success / failure pattern
